@@ -67,6 +67,22 @@ pub fn iter_adaptors(_args: &[String]) -> String {
             }
         }
     }
+    // ---- exhaustion finishes the bar whatever finish behaviour is configured (forward and backward)
+    for fb in 0..5 {
+        for back in [false, true] {
+            let mk = || match fb {
+                0 => ProgressFinish::AndLeave, 1 => ProgressFinish::AndClear, 2 => ProgressFinish::Abandon,
+                3 => ProgressFinish::WithMessage("done".into()), _ => ProgressFinish::AbandonWithMessage("gone".into()),
+            };
+            let pb = ProgressBar::hidden().with_finish(mk());
+            pb.set_length(3);
+            let n = if back { (0..3u64).progress_with(pb.clone()).rev().count() } else { (0..3u64).progress_with(pb.clone()).count() };
+            tried += 1;
+            if n != 3 || !pb.is_finished() {
+                return fail("C17 exhaustion of the wrapped iterator finishes the bar (every configured finish behaviour)", format!("with_finish(variant {}) {} iteration of 3 items: items {} finished {}", fb, if back { "backward" } else { "forward" }, n, pb.is_finished()));
+            }
+        }
+    }
     // ---- provided iterator methods that may be overridden: nth / skip / step_by / last on a bar whose finish
     // behaviour does not rewrite the position (no length, Abandon): the position is the number of items pulled
     for n in [0usize, 3, 10] {
